@@ -143,7 +143,9 @@ def pca(data, axis=0, mask=None, ncomp=None, standardize=True,
             # modifies array in place
             resid = project_resid(std_source)
             # root mean square of the residual
-            rmse = np.sqrt(np.square(resid).sum(axis=0) / resid.shape[0])
+            # (squares as floats: integer data would overflow)
+            rmse = np.sqrt(np.square(resid, dtype=np.float64).sum(axis=0)
+                           / resid.shape[0])
             # positive 1/rmse
             return np.where(rmse<=0, 0, 1. / rmse)
     else:
